@@ -1714,6 +1714,42 @@ void HistSim::opDoc(const Op& op, size_t ix) {
       D.doc = D.alloc < 0 ? new JsonDocument() : new JsonDocument(allocs_[size_t(D.alloc)].get());
       D.leaky = false;
     }
+  } else if (what == "fromv") {  // destroy d, construct it from a reference into another document
+    Ref* src = resolve(op, "src");
+    if (src->doc == d) {
+      lastSkip = "own-value";
+      return;
+    }
+    Val srcCopy = *findNode(src->doc, src->node);
+    int oldAlloc = D.alloc;
+    assignContent(D.model, srcCopy);
+    dropDocRefs(d);
+    D.alloc = opt.useDefaultAlloc ? -1 : opt.shareAlloc ? 0 : d;
+    D.ovf = false;
+    j.voidConverter = true;
+    if (real_) {
+      startFaults(op);
+      delete D.doc;
+      D.doc = nullptr;
+      if (!sharedBefore && oldAlloc >= 0)
+        allocs_[size_t(oldAlloc)]->expectEmpty("C06:leak-at-destruction", "after ~JsonDocument()");
+      Allocator* al = D.alloc < 0 ? detail::DefaultAllocator::instance() : allocs_[size_t(D.alloc)].get();
+      switch (src->root ? 'v' : src->view) {
+        case 'a':
+          D.doc = op.num("via") ? new JsonDocument(JsonArrayConst(src->a), al) : new JsonDocument(src->a, al);
+          break;
+        case 'o':
+          D.doc = op.num("via") ? new JsonDocument(JsonObjectConst(src->o), al) : new JsonDocument(src->o, al);
+          break;
+        case 'c':
+          D.doc = new JsonDocument(src->c, al);
+          break;
+        default:
+          D.doc = op.num("via") ? new JsonDocument(realConst(*src), al) : new JsonDocument(realVariant(*src), al);
+      }
+      D.leaky = false;
+      expectAllocator(D, "after construction from a value");
+    }
   } else if (what == "set") {  // d.set(reference)  /  d = reference
     Ref* src = resolve(op, "src");
     if (src->doc == d) {
